@@ -406,6 +406,26 @@ def check(prop, tier, base_seed, workers=None):
                                      "shrink_evals": 0, "ops_before": len(doc["plan"]["ops"]),
                                      "ops_after": len(doc["plan"]["ops"])})
     print("regression replays: %d executed, %d failing" % (regress_n, len(regress_hits)))
+    # 0b. known findings (genuine defects recorded, not repaired): each has a minimal replay
+    #     that is executed on every run; while it still fails in the recorded way the
+    #     KNOWN-FINDING line is printed; a different violation on it is reported.
+    findings = load_findings()
+    known_lines = []
+    for k in findings.get("known", []):
+        if k["property"] != prop or not k.get("replay"):
+            continue
+        with open(os.path.join(VERIF, k["replay"])) as f:
+            doc = json.load(f)
+        res = sim.execute(doc["plan"])
+        hit = [v for v in res.get("violations", []) if v["property"] == prop]
+        if hit and sim.finding_signature(doc["plan"], hit[0]) == k["signature"]:
+            known_lines.append("KNOWN-FINDING: property=%s %s" % (prop, k["what"]))
+        elif hit:
+            regress_hits.append({"path": os.path.join(VERIF, k["replay"]), "violation": hit[0], "plan": doc["plan"],
+                                 "shrink_evals": 0, "ops_before": len(doc["plan"]["ops"]),
+                                 "ops_after": len(doc["plan"]["ops"])})
+        else:
+            print("known finding no longer reproduces (replay %s passes)" % k["replay"])
     hard_wall = wall_cap + max(45.0, wall_cap / 4)
     # minimisation is a courtesy, the verdict is not: no shrink evaluation starts later than this
     shrink_deadline = t_start + wall_cap + max(70.0, wall_cap / 2)
@@ -419,9 +439,7 @@ def check(prop, tier, base_seed, workers=None):
     batch = run_batch(sim_name, base_seed, tier, max_runs, wall_cap, workers,
                       chunk=budget.get("chunk", 25), stop_on_violation_of=[prop], hard_wall=hard_wall)
     mine = [v for v in batch.violations if v["violation"]["property"] == prop]
-    findings = load_findings()
     reported = list(regress_hits)
-    known_lines = []
     seen_classes = set()
     for item in mine:
         vclass = item["violation"]["class"]
@@ -473,7 +491,9 @@ def check(prop, tier, base_seed, workers=None):
                                % (vclass, item["index"], json.dumps(item["violation"].get("detail"), sort_keys=True)[:1500]))
         k = match_known(findings, prop, v, best, sim)
         if k is not None:
-            known_lines.append("KNOWN-FINDING: property=%s %s" % (prop, k["what"]))
+            line = "KNOWN-FINDING: property=%s %s" % (prop, k["what"])
+            if line not in known_lines:
+                known_lines.append(line)
             try:
                 os.unlink(path)
             except OSError:
